@@ -51,6 +51,8 @@ def main():
         dst = os.path.join(VERIF, "harmless", f"{pid}-{name}")
         os.makedirs(dst, exist_ok=True)
         shutil.copy(os.path.join(src, "patch.diff"), dst)
+        if os.path.exists(os.path.join(src, "equiv.py")) and os.path.realpath(src) != os.path.realpath(dst):
+            shutil.copy(os.path.join(src, "equiv.py"), dst)
         meta = {}
         if os.path.exists(os.path.join(src, "meta.json")):
             try: meta = json.load(open(os.path.join(src, "meta.json")))
@@ -60,7 +62,7 @@ def main():
         return 0
     finally:
         sh(f"git -C /repo worktree remove --force {wt}")
-        sh("python3 tools/extract.py", cwd=VERIF)
+        sh("flock lean/.lake/verif.lock python3 tools/extract.py", cwd=VERIF)
 
 
 if __name__ == "__main__":
